@@ -632,7 +632,7 @@ static size_t gp_str_find_valid(
         if (cp_length == 0)
             continue;
 
-        if (cp_length + i < length) {
+        if (cp_length + i <= length) {
             uint32_t codepoint = 0;
             for (size_t j = 0; j < cp_length; j++)
                 codepoint = codepoint << 8 | (uint8_t)haystack[i + j];
